@@ -218,7 +218,7 @@ func (a *ownAnalysis) locType(l loc) types.Type {
 		}
 		found := false
 		for i := 0; i < st.NumFields(); i++ {
-			if st.Field(i).Name() == f {
+			if fieldAliasName(st.Field(i)) == f {
 				t = st.Field(i).Type()
 				found = true
 				break
